@@ -7,6 +7,7 @@
 -/
 import CharsetProof.Model.F32
 import CharsetProof.Model.Sort
+import CharsetProof.Model.SortSmall
 namespace Charset
 
 variable {L : Type} [DecidableEq L]
@@ -44,12 +45,32 @@ def filterAltStep (index : List (L × F32)) (p : L × F32) : List (L × F32) :=
 /-- `filter_alt_coherence_matches`: one entry per language (first appearance), with its best score -/
 def filterAlt (l : List (L × F32)) : List (L × F32) := l.foldl filterAltStep []
 
-/-- `results.sort_unstable_by(|a, b| b.score.cmp(&a.score))` for up to 20 entries (insertion sort) -/
+/-- `results.sort_unstable_by(|a, b| b.score.cmp(&a.score))` on `CoherenceMatch` (16 bytes) -/
 def sortDesc (l : List (L × F32)) : List (L × F32) :=
-  insertionSort (fun a b => Fl.ocmp b.2 a.2 == .lt) l
+  sortUnstableSmall (fun a b => Fl.ocmp b.2 a.2 == .lt) l
 
 /-- `coherence_ratio` on `nLayers` layers -/
 def coherenceRatioModel (thr : F32) (nLayers : Nat) (score : Nat → L → F32) (cands : Nat → List L) : List (L × F32) :=
   sortDesc (filterAlt (cohLayers thr score cands (List.range nLayers) 0))
+
+/-! ### `merge_coherence_ratios` (after the determinism repair: insertion-ordered grouping) -/
+
+/-- `index.iter_mut().find(|(lang, _)| lang == language)`: push the score onto the first group of that
+    language, or open a new group at the end -/
+def pushScore (p : L × F32) : List (L × List F32) → List (L × List F32)
+  | [] => [(p.1, [p.2])]
+  | q :: qs => if q.1 = p.1 then (q.1, q.2 ++ [p.2]) :: qs else q :: pushScore p qs
+
+/-- the grouping loop over `results.iter().flatten()` -/
+def mergeGroups (results : List (List (L × F32))) : List (L × List F32) :=
+  results.flatten.foldl (fun idx p => pushScore p idx) []
+
+/-- `scores.iter().sum::<OrderedFloat<f32>>() / (scores.len() as f32)` -/
+def meanScore (scores : List F32) : F32 :=
+  Fl.div (scores.foldl Fl.add Fl.zero) (Fl.ofNat fmt32 scores.length)
+
+/-- `merge_coherence_ratios`: mean per language, then `sort_unstable_by(|a, b| b.score.cmp(&a.score))` -/
+def mergeModel (results : List (List (L × F32))) : List (L × F32) :=
+  sortDesc ((mergeGroups results).map (fun g => (g.1, meanScore g.2)))
 
 end Charset
